@@ -138,9 +138,15 @@ func (u *Unit) typingAxiom(name string, so Sort) {
 				u.emit(fmt.Sprintf("(assert (<= (root %s) %s))", name, bound.S))
 			case so == ArrSort(SInt, SInt):
 				u.emit(fmt.Sprintf("(assert (forall ((tr Int)) (! (<= (root (select %s tr)) %s) :pattern ((select %s tr)))))", name, bound.S, name))
+				if tid, ok := compDyn[base]; ok {
+					u.emit(fmt.Sprintf("(assert (forall ((tr Int)) (! (or (= (select %s tr) 0) (and (= (dyn (select %s tr)) %d) (>= (root (select %s tr)) 1))) :pattern ((select %s tr)))))", name, name, tid, name, name))
+				}
 			case so.IsArray() && so.ElemSort().IsArray() && so.ElemSort().ElemSort() == SInt:
 				ks := so.ElemSort().IdxSort()
 				u.emit(fmt.Sprintf("(assert (forall ((tr Int) (tj %s)) (! (<= (root (select (select %s tr) tj)) %s) :pattern ((select (select %s tr) tj)))))", ks, name, bound.S, name))
+				if tid, ok := compDyn[base]; ok {
+					u.emit(fmt.Sprintf("(assert (forall ((tr Int) (tj %s)) (! (or (= (select (select %s tr) tj) 0) (and (= (dyn (select (select %s tr) tj)) %d) (>= (root (select (select %s tr) tj)) 1))) :pattern ((select (select %s tr) tj)))))", ks, name, name, tid, name, name))
+				}
 			}
 		}
 		return
@@ -614,6 +620,7 @@ func (u *Unit) Preamble() string {
 		b.WriteString("(assert (forall ((s Str)) (! (= (mkstr (sbytes s) 0 (slen s)) s) :pattern ((sbytes s)))))\n")
 	}
 	b.WriteString("(declare-fun root (Int) Int)\n")
+	b.WriteString("(declare-fun dyn (Int) Int)\n")
 	b.WriteString("(declare-fun kind (Int) Int)\n")
 	b.WriteString("(declare-fun box.Str (Str) Int)\n(declare-fun unbox.Str (Int) Str)\n")
 	b.WriteString("(assert (forall ((s Str)) (! (and (= (unbox.Str (box.Str s)) s) (= (root (box.Str s)) 0)) :pattern ((box.Str s)))))\n")
